@@ -51,30 +51,37 @@ K_INVSENS = "mj_inverse: actuator-force sensors report actuator_force/qfrc_actua
 WHITELISTED_ERRORS = ("tendon equality does not yet support sleeping",
                       "trees were marked as sleep='init' but only")   # init-asleep needs island structure when constrained
 
+K_EKIN = "e_kinetic sensor is computed in the position stage (not refreshed by the velocity stage; reads a stale flg_energyvel)"
 SENS_ACT_TYPES = None   # set by _init_enums (tree's introspect tables)
+SENS_E_KINETIC = None
 
 
 def _init_enums():
-    global SENS_ACT_TYPES
+    global SENS_ACT_TYPES, SENS_E_KINETIC
     if SENS_ACT_TYPES is None:
         from .. import introspect_tree
         en = dict(introspect_tree.load("enums").ENUMS["mjtSensor"].values)
         SENS_ACT_TYPES = frozenset(en[k] for k in ("mjSENS_ACTUATORFRC", "mjSENS_JOINTACTFRC", "mjSENS_TENDONACTFRC"))
+        SENS_E_KINETIC = en["mjSENS_E_KINETIC"]
 
 
 def option_lattice(thorough):
     out = []
-    for integ, sol, cone in itertools.product(INTEGRATORS, SOLVERS, CONES):
+    for (i1, integ), (i2, sol), (i3, cone) in itertools.product(enumerate(INTEGRATORS), enumerate(SOLVERS), enumerate(CONES)):
         rows = list(itertools.product((0, 1), (0, 1), (0, 1))) if thorough else OA3
-        for jac, isl, slp in rows:
-            out.append((integ, sol, cone, JACOBIANS[jac], isl, slp))
+        for ri, (jac, isl, slp) in enumerate(rows):
+            # the energy flag is not one of the options named by the property; it is carried as a derived (confounded)
+            # factor so that every model meets both values without enlarging the lattice
+            energy = (i1 + i2 + i3 + ri) % 2
+            out.append((integ, sol, cone, JACOBIANS[jac], isl, slp, energy))
     return out
 
 
 def option_xml(opt):
-    integ, sol, cone, jac, isl, slp = opt
+    integ, sol, cone, jac, isl, slp, energy = opt
     return A.option_elem(integrator=integ, solver=sol, cone=cone, jacobian=jac,
-                         flags=dict(island="enable" if isl else "disable", sleep="enable" if slp else "disable"))
+                         flags=dict(island="enable" if isl else "disable", sleep="enable" if slp else "disable",
+                                    energy="enable" if energy else "disable"))
 
 
 def sequences(depth):
@@ -97,10 +104,10 @@ def diff_sensors(m, donor, rcv):
 
 
 def run_job(lib, part, job, states=None):
-    mi, opt, depth, donors = job
+    mi, opt, plan = job
     name, fn = M.C01_MODELS[mi]
     cmp = N.cmp_for(lib)
-    integ, sol, cone, jac, isl, slp = opt
+    integ, sol, cone, jac, isl, slp, energy = opt
     if integ == "RK4" and slp:
         part.add("excluded_rk4_sleep")      # documented: "The RK4 integrator is not currently supported" with sleeping
         return
@@ -117,7 +124,6 @@ def run_job(lib, part, job, states=None):
     snD = cmp.snap_alloc(proto)
     snR = cmp.snap_alloc(proto)
     proto.free()
-    seqs = sequences(depth)
     seenD, seenR = {}, {}
     hashes = set() if states is None else states
     base = {"model": name, "option": opt}
@@ -126,8 +132,9 @@ def run_job(lib, part, job, states=None):
         part.violation(key, what + " [model %s, option %s]" % (name, "/".join(map(str, opt))), dict(base, **kw))
 
     try:
-        for dk in donors:
-            for t in E.TRANSFERS:
+        for dk, transfers, depth in plan:
+            seqs = sequences(depth)
+            for t in transfers:
                 state_t = t != "copyData"
                 for h in E.RECEIVERS:
                     if h == "garbage" and (not state_t or slp):
@@ -166,7 +173,7 @@ def _trace(lib, part, cmp, fac, m, dk, h, t, seq, slp, snD, snR, seenD, seenR, h
                      "after %s(INTEGRATION) the receiver differs from the donor in state field(s) %s" % (t, st), **rep)
                 return
         sleepdiff = bool(slp) and any(f in E.SLEEP_FIELDS for f in S0)
-        nontrivial = bool(S0) or t == "copyData"
+        nontrivial = bool(S0) and t != "copyData"     # the receiver really carried data of another history into the calls
         part.count(1, sample=dict(rep, **base) if (len(part["samples"]) < 2 and h == "used" and t == "copyState") else None)
         if nontrivial:
             part["nontrivial_count"] += 1
@@ -187,10 +194,6 @@ def _trace(lib, part, cmp, fac, m, dk, h, t, seq, slp, snD, snR, seenD, seenR, h
                 part.add("warning_fired_skipped")
                 return
             stale, bad = cmp.classify(m, donor, rcv, snD, snR, E.POISON_D, E.POISON_R)
-            hD = cmp.hash(m, donor)
-            hR = hD if not stale and not bad else cmp.hash(m, rcv)
-            hashes.add(hD)
-            hashes.add(hR)
             part["outcomes"].add("equal" if not stale and not bad else ("equal_modulo_unwritten" if not bad else "diverged"))
             if bad:
                 r = dict(rep, prefix=prefix, bad_fields=bad[:12])
@@ -198,11 +201,33 @@ def _trace(lib, part, cmp, fac, m, dk, h, t, seq, slp, snD, snR, seenD, seenR, h
                         "field(s) %s" % (c, dk, h, t, list(prefix), bad[:8]))
                 if sleepdiff:
                     viol(K_SLEEP, "sleep state (tree_asleep & derived arrays) differs after the transfer; " + what, **r)
-                elif c == "inverse" and bad == ["sensordata"] and _only_act_sensors(m, donor, rcv, stale):
-                    viol(K_INVSENS, what, **r)
-                else:
+                    return
+                generic = True
+                if bad == ["sensordata"]:
+                    # one canonical key per root cause, also when two root causes show in the same call; the affected sensor
+                    # values are then copied from the donor (sensordata is not read by later calls) so that the rest of the
+                    # history is still checked instead of being masked by the known divergence
+                    stypes = np.array(m.sensor_type)
+                    ids = diff_sensors(m, donor, rcv)
+                    act_ok = c == "inverse" and ("actuator_force" in stale or "qfrc_actuator" in stale)
+                    known = [s for s in ids if int(stypes[s]) == SENS_E_KINETIC or (act_ok and int(stypes[s]) in SENS_ACT_TYPES)]
+                    if any(int(stypes[s]) == SENS_E_KINETIC for s in known):
+                        viol(K_EKIN, what, **r)
+                    if any(int(stypes[s]) in SENS_ACT_TYPES for s in known):
+                        viol(K_INVSENS, what, **r)
+                    if len(known) == len(ids):
+                        generic = False
+                        for sid in known:
+                            a0 = int(m.sensor_adr[sid])
+                            rcv.sensordata[a0:a0 + int(m.sensor_dim[sid])] = donor.sensordata[a0:a0 + int(m.sensor_dim[sid])]
+                        part.add("continued_after_known_sensor_divergence")
+                if generic:
                     viol("%s after %s: %s diverges" % ("copyData" if t == "copyData" else "state transfer", c, bad[0]), what, **r)
-                return
+                    return
+            hD = cmp.hash(m, donor)
+            hR = hD if not stale and not bad else cmp.hash(m, rcv)
+            hashes.add(hD)
+            hashes.add(hR)
             # replays of the same history prefix must reproduce the first one
             k1 = (dk, prefix)
             if seenD.setdefault(k1, hD) != hD:
@@ -219,14 +244,6 @@ def _trace(lib, part, cmp, fac, m, dk, h, t, seq, slp, snD, snR, seenD, seenR, h
         rcv.free()
 
 
-def _only_act_sensors(m, donor, rcv, stale):
-    if "actuator_force" not in stale and "qfrc_actuator" not in stale:
-        return False
-    ids = diff_sensors(m, donor, rcv)
-    types = np.array(m.sensor_type)
-    return bool(ids) and all(int(types[s]) in SENS_ACT_TYPES for s in ids)
-
-
 B_MODELS = ("sleep", "stack", "islands3")     # models in which the quiet donor (sleeping trees stay asleep) adds something in quick
 
 
@@ -241,12 +258,17 @@ def _chunk(chunk):
 
 
 def make_jobs(ctx):
+    """plan = [(donor builder, transfers, call-sequence length)]"""
     jobs = []
-    depth = ctx.q(2, 3)
     for mi, (name, _) in enumerate(M.C01_MODELS):
         for opt in option_lattice(ctx.thorough):
-            donors = "AB" if (ctx.thorough or name in B_MODELS) else "A"
-            jobs.append((mi, opt, depth, donors))
+            if ctx.thorough:
+                plan = [("A", ("copyData", "copyState"), 3), ("A", ("getset",), 2), ("B", tuple(E.TRANSFERS), 2)]
+            else:
+                plan = [("A", tuple(E.TRANSFERS), 2)]
+                if name in B_MODELS:
+                    plan.append(("B", tuple(E.TRANSFERS), 2))
+            jobs.append((mi, opt, plan))
     return jobs
 
 
@@ -263,10 +285,12 @@ def run(ctx):
                 "cone{pyramidal,elliptic} x %s over jacobian{dense,sparse} x island{on,off} x sleep{off,on}) x donor builders "
                 "{A perturbed; B quiet} x receiver history {fresh, reset, used 3 steps+inverse, used forward only, used+garbage in "
                 "every derived buffer (sleep off)} x transfer {copyData, copyState(INTEGRATION), getState->setState} x all call "
-                "sequences of length %d over %s (every prefix is checked). An evaluation is one replayed history; non-trivial = "
-                "the receiver differed from the donor in at least one non-state field after the transfer (or copyData). "
+                "sequences of length %s over %s (every prefix is checked). An evaluation is one replayed history (all are distinct "
+                "tuples); non-trivial = state transfer after which the receiver still differed from the donor in at least one "
+                "non-state mjData field, i.e. leftovers of another history were really present. "
                 "states = distinct hashes of all compared mjData fields of donor/receiver after the transfer and after each call."
-                % ("the full product" if ctx.thorough else "an orthogonal array", ctx.q(2, 3), E.CALLS))
+                % ("the full product" if ctx.thorough else "an orthogonal array",
+                   ctx.q("2", "3 (donor A, copyData/copyState) and 2 (getState->setState, donor B)"), E.CALLS))
     ctx.assumptions = [
         "qacc is copied before a leading mj_inverse (documented input of inverse dynamics)",
         "mj_forwardSkip only after a forward-type call computed the skipped stages on that mjData (R1, counted)",
@@ -285,7 +309,7 @@ def replay(ctx, path):
     part = core.Part()
     names = [n for n, _ in M.C01_MODELS]
     opt = tuple(r["option"])
-    job = (names.index(r["model"]), opt, len(r.get("seq", ["step"])), r.get("donor", "A"))
+    job = (names.index(r["model"]), opt, [(r.get("donor", "A"), (r.get("transfer", "copyState"),), len(r.get("seq", ["step"])))])
     run_job(lib, part, job)
     ctx.merge(part)
     ctx.rule = "replay of one (model, option) job"
